@@ -135,6 +135,12 @@ func c10Build(d ref.DT, shapes [][]int, lays []string) ([]*atlas.Built, []ref.Ar
 			vals[j] = d.Code(base + j)
 		}
 		base += n
+		if lays[i] == "=0" && i > 0 {
+			// the SAME tensor as operand 0, given once more
+			bs = append(bs, bs[0])
+			arrs = append(arrs, arrs[0])
+			continue
+		}
 		b := buildVerified(d, s, vals, lays[i])
 		if b == nil {
 			return nil, nil
@@ -452,6 +458,28 @@ func runC10(r *core.Run) {
 						c10Join(r, "Concat", d, bad, lc, 0, "method")
 						c10Join(r, "Stack", d, bad, lc, 0, "method")
 					}
+				}
+			}
+			// the same tensor given several times (x joined with itself), alone and next to another operand
+			for _, l0 := range lays {
+				if !r.Take() {
+					continue
+				}
+				for _, lc := range [][]string{{l0, "=0"}, {l0, "=0", "=0"}, {l0, "C", "=0"}, {l0, "=0", "S"}} {
+					eq := make([][]int, len(lc))
+					for i := range eq {
+						eq[i] = s
+					}
+					for axis := 0; axis <= rank; axis++ {
+						for _, api := range []string{"method", "func"} {
+							c10Join(r, "Stack", d, eq, lc, axis, api)
+							if axis < rank {
+								c10Join(r, "Concat", d, eq, lc, axis, api)
+							}
+						}
+					}
+					c10Join(r, "Hstack", d, eq, lc, 0, "method")
+					c10Join(r, "Vstack", d, eq, lc, 0, "method")
 				}
 			}
 			// repeat
